@@ -726,11 +726,50 @@ func C14(c *Ctx) {
 				why = "emitted messages are not re-processed by one Process goroutine each"
 				continue
 			}
-			if g.Parent() != proc && len(callSitesOf(g.Parent(), []*ssa.Function{proc})) == 0 {
+			// the place that is judged: the go statement itself, or — when it sits in an unexported helper that runs once
+			// (unconditionally) for the message it is handed — the place where that helper runs (a call, or a call of
+			// its method value inside the function that holds the loops: `b.eachEmitted(r.emit)`)
+			var at ssa.Instruction = g
+			var msgv ssa.Value
+			if len(g.Call.Args) >= 3 {
+				msgv = g.Call.Args[2]
+			}
+			lifted := true
+			for depth := 0; depth < 3 && at.Parent() != proc && !flow.InCycle(at.Block()); depth++ {
+				h := at.Parent()
+				par, isPar := msgv.(*ssa.Parameter)
+				if !isPar || par.Parent() != h || h.Parent() != nil || len(h.Blocks) == 0 || (h.Object() != nil && h.Object().Exported() && h.Synthetic == "") {
+					break
+				}
+				pi := -1
+				for i, fp := range h.Params {
+					if fp == par {
+						pi = i
+					}
+				}
+				if at.Block() != h.Blocks[0] && !flow.NewPostDom(h).PostDominates(at.Block(), h.Blocks[0]) {
+					lifted = false // the helper re-injects its message on some ways only
+					break
+				}
+				vs, complete := runSitesThroughValues(h, procFns)
+				if !complete || len(vs) != 1 || pi-vs[0].shift < 0 || pi-vs[0].shift >= len(vs[0].site.Common().Args) {
+					break
+				}
+				cl, isCall := vs[0].site.(*ssa.Call)
+				if !isCall {
+					break
+				}
+				at, msgv = cl, cl.Common().Args[pi-vs[0].shift]
+			}
+			if !lifted {
+				why = "the function that re-injects an emitted message does so on some ways only"
+				continue
+			}
+			if at.Parent() != proc && len(callSitesOf(at.Parent(), []*ssa.Function{proc})) == 0 {
 				why = "the function that re-injects emitted messages is not called by Process"
 				continue
 			}
-			loops := enclosingLoops(flow.Loops(g.Parent()), g.Block())
+			loops := enclosingLoops(flow.Loops(at.Parent()), at.Block())
 			if len(loops) < 3 {
 				why = "the re-injection is not inside the loop over every stride's emitted messages"
 				continue
@@ -754,7 +793,7 @@ func C14(c *Ctx) {
 			for len(stack) > 0 {
 				b := stack[len(stack)-1]
 				stack = stack[:len(stack)-1]
-				if seen[b] || b == g.Block() {
+				if seen[b] || b == at.Block() {
 					continue
 				}
 				seen[b] = true
@@ -769,8 +808,8 @@ func C14(c *Ctx) {
 			}
 			// the message handed on is the loop's element
 			msgOK := false
-			if len(g.Call.Args) >= 3 {
-				if ld, isLd := g.Call.Args[2].(*ssa.UnOp); isLd {
+			if msgv != nil {
+				if ld, isLd := msgv.(*ssa.UnOp); isLd {
 					if ia, isIA := ld.X.(*ssa.IndexAddr); isIA && ia.X == op {
 						msgOK = true
 					}
